@@ -17,8 +17,10 @@ use tokio::time::Instant;
 pub enum OpSpec {
     /// reply delay in ms (None = never)
     Single { delay: Option<u64> },
-    /// gaps between consecutive items in ms, then the gap before Done (None = never sent)
-    Search { gaps: Vec<u64>, done_gap: Option<u64> },
+    /// gaps between consecutive items in ms, then the gap before Done (None = never sent); `kinds[k]`
+    /// says what item k is: 0 entry, 1 reference, 2 intermediate response (every received item
+    /// restarts the timer, whether or not the caller gets to see it)
+    Search { gaps: Vec<u64>, done_gap: Option<u64>, kinds: Vec<u8> },
 }
 
 #[derive(Clone, Debug)]
@@ -37,8 +39,8 @@ pub struct TimedOp {
 fn encode_behaviour(op: &TimedOp) -> String {
     match &op.spec {
         OpSpec::Single { delay } => format!("op={},b=d{}", op.token, delay.map(|d| d.to_string()).unwrap_or_else(|| "x".into())),
-        OpSpec::Search { gaps, done_gap } => {
-            let mut parts: Vec<String> = gaps.iter().map(|g| g.to_string()).collect();
+        OpSpec::Search { gaps, done_gap, kinds } => {
+            let mut parts: Vec<String> = gaps.iter().enumerate().map(|(k, g)| format!("{}{}", g, match kinds.get(k) { Some(1) => "r", Some(2) => "i", _ => "" })).collect();
             parts.push(done_gap.map(|d| d.to_string()).unwrap_or_else(|| "x".into()));
             format!("op={},b=g{}", op.token, parts.join(":"))
         }
@@ -119,17 +121,23 @@ async fn timing_server(mut server: ServerEnd) -> HashMap<u64, i64> {
                 tokio::spawn(async move {
                     let n = parts.len();
                     for (k, p) in parts.iter().enumerate() {
-                        let d: u64 = match p.parse() {
+                        let kind = if p.ends_with('r') { 1 } else if p.ends_with('i') { 2 } else { 0 };
+                        let d: u64 = match p.trim_end_matches(|c| c == 'r' || c == 'i').parse() {
                             Ok(d) => d,
                             Err(_) => return, // 'x' = never
                         };
                         if d > 0 {
                             tokio::time::sleep(Duration::from_millis(d)).await;
                         }
+                        let name = format!("e={}.{},dc=x", tok, k);
                         let bytes = if k + 1 == n {
                             ber::encode_min(&resp_node(id, &Resp::Done(Res::ok(&format!("t:{}:done", tok))), None))
+                        } else if kind == 1 {
+                            ber::encode_min(&resp_node(id, &Resp::Reference(vec![name]), None))
+                        } else if kind == 2 {
+                            ber::encode_min(&resp_node(id, &Resp::Intermediate { name: Some(name), value: None }, None))
                         } else {
-                            ber::encode_min(&resp_node(id, &Resp::Entry { dn: format!("e={}.{},dc=x", tok, k).into_bytes(), attrs: vec![] }, None))
+                            ber::encode_min(&resp_node(id, &Resp::Entry { dn: name.into_bytes(), attrs: vec![] }, None))
                         };
                         tx.send(&bytes);
                     }
@@ -258,6 +266,18 @@ async fn run_op(ldap: &mut Ldap, op: &TimedOp) -> Vec<(u64, Ev)> {
                     }
                     Ok(Err(ldap3::LdapError::Timeout { .. })) => {
                         evs.push((ms(t0), Ev::Timeout));
+                        // the Search is over: asking again yields nothing, at once (no further wait, and
+                        // certainly none of the items that arrive late)
+                        let again = match Caught::new(st.next()).await {
+                            Ok(Ok(None)) => None,
+                            Ok(Ok(Some(_))) => Some("a-late-item".to_string()),
+                            Ok(Err(ldap3::LdapError::Timeout { .. })) => Some("another-wait-and-timeout".to_string()),
+                            Ok(Err(e)) => Some(format!("error-{}", world::err_class(&e))),
+                            Err(p) => Some(format!("panic:{}", p.site())),
+                        };
+                        if let Some(a) = again {
+                            evs.push((ms(t0), Ev::Err(format!("next-after-timeout-returned-{}", a))));
+                        }
                         break;
                     }
                     Ok(Err(e)) => {
@@ -298,7 +318,7 @@ fn expected(op: &TimedOp) -> (Vec<(u64, Ev)>, bool) {
             (Some(t), _) => evs.push((t, Ev::Timeout)),
             (None, None) => {}
         },
-        OpSpec::Search { gaps, done_gap } => {
+        OpSpec::Search { gaps, done_gap, kinds } => {
             let mut now = 0u64;
             let mut timed_out = false;
             for (k, g) in gaps.iter().enumerate() {
@@ -358,8 +378,9 @@ fn expected(op: &TimedOp) -> (Vec<(u64, Ev)>, bool) {
                 }
             }
             if op.collect && op.paged.is_none() {
-                // one event: the call's return
-                let n = evs.iter().filter(|e| matches!(e.1, Ev::Item(_))).count();
+                // one event: the call's return; only entries are collected, the URIs of the references
+                // go into the result
+                let n = evs.iter().enumerate().filter(|(k, e)| matches!(e.1, Ev::Item(_)) && kinds.get(*k).copied().unwrap_or(0) == 0).count();
                 let last = evs.last().cloned();
                 evs.clear();
                 match last {
@@ -405,10 +426,12 @@ pub fn gen_op(rng: &mut Rng, token: u64) -> TimedOp {
         let n = rng.usize(7);
         let gaps: Vec<u64> = (0..n).map(|_| near(rng, timeout)).collect();
         let done_gap = if timeout.is_some() && rng.chance(1, 5) { None } else { Some(near(rng, timeout)) };
-        OpSpec::Search { gaps, done_gap }
+        let mixed = rng.chance(1, 3);
+        let kinds: Vec<u8> = (0..n).map(|_| if mixed { rng.below(3) as u8 } else { 0 }).collect();
+        OpSpec::Search { gaps, done_gap, kinds }
     };
     let timeout = if huge { Some(*rng.pick(&[u64::MAX, u64::MAX - 1, HUGE])) } else { timeout };
-    let paged = if matches!(spec, OpSpec::Search { .. }) && rng.chance(1, 4) { Some(1 + rng.below(3) as i32) } else { None };
+    let paged = if matches!(&spec, OpSpec::Search { kinds, .. } if kinds.iter().all(|k| *k == 0)) && rng.chance(1, 4) { Some(1 + rng.below(3) as i32) } else { None };
     let collect = matches!(spec, OpSpec::Search { .. }) && paged.is_none() && rng.chance(1, 4);
     TimedOp { token, timeout, spec, paged, collect }
 }
@@ -429,7 +452,7 @@ fn run_case(i: u64, rng: &mut Rng, rep: &mut Report, verbose: bool) {
         .flatten()
         .map(|op| match &op.spec {
             OpSpec::Single { delay } => delay.unwrap_or(0),
-            OpSpec::Search { gaps, done_gap } => gaps.iter().sum::<u64>() + done_gap.unwrap_or(0),
+            OpSpec::Search { gaps, done_gap, .. } => gaps.iter().sum::<u64>() + done_gap.unwrap_or(0),
         })
         .max()
         .unwrap_or(0);
